@@ -109,7 +109,11 @@ class C07:
             if case.get("then_print"):
                 s.add("print", 1)
         for op in case.get("ops", []):
-            marks.append(s.add(*op))
+            if op and isinstance(op[0], list):
+                for line in op:
+                    marks.append(s.add(*line))
+            else:
+                marks.append(s.add(*op))
         s.add("free", 1)
         i1 = s.add("allocstat")
         return s, i0, i1, marks
@@ -238,6 +242,12 @@ class C07:
             ("setmulti-in-sec", ["setmulti", 1, hx("tm=a|q"), 1, hx("ptrval")]),
             ("print", ["print", 1]),
             ("dump", ["dump", 1]),
+            ("ptr-setopt-refused", [["getopt", 1, hx("p"), 9], ["cbfail", 1], ["setopt", 1, 9, hx("zz")], ["cbfail", 0]]),
+            ("ptr-setopt", [["getopt", 1, hx("p"), 9], ["setopt", 1, 9, hx("fresh")]]),
+            ("ptr-list-setmulti-refused", [["cbfail", 2], ["setmulti", 1, hx("pl"), 3, hx("r1"), hx("r2"), hx("r3")], ["cbfail", 0]]),
+            ("ptr-in-sec-setopt-refused", [["getopt", 1, hx("tm=a|q"), 9], ["cbfail", 1], ["setopt", 1, 9, hx("zz")], ["cbfail", 0]]),
+            ("setstr-null-list", ["setstr", 1, hx("sl"), 0, "~"]),
+            ("parse-read-error", ["parse_fp_fail", 1, hx(good), 120]),
         ]
 
     def histories(self, depth):
